@@ -103,22 +103,32 @@ def cap_case():
                                      MSG_USERAUTH_SUCCESS)
         log = []
         k = ctx.int("failed_attempts_so_far", 0, 2 ** 31)
-        method = ctx.choice("method", ["none", "password", "publickey", "bogus-method"])
+        method = ctx.choice("method", ["none", "password", "publickey", "bogus-method", "keyboard-interactive-answers"])
         r = _results(ctx, "result")
         probe = {}
         with ctx.patches(L.loop_patches()):
-            req = A.userauth_request("u", "ssh-connection", method)
+            interactive = method == "keyboard-interactive-answers"
+            req = A.userauth_request("u", "ssh-connection", "keyboard-interactive" if interactive else method)
 
             def first():
                 t.auth_handler.auth_fail_count = k
                 t.auth_handler.auth_username = "u"
+                if interactive:
+                    # the request itself was answered with a question (no verdict yet); the verdict comes with the answers
+                    from paramiko.common import MSG_USERAUTH_INFO_RESPONSE
+                    from paramiko.message import Message
+                    t.auth_handler.auth_method = "keyboard-interactive"
+                    m = Message()
+                    m.add_int(1)
+                    m.add_string("a")
+                    return (MSG_USERAUTH_INFO_RESPONSE, m.asbytes(), 4)
                 return (MSG_USERAUTH_REQUEST, req, 4)
 
             def after():
                 probe["nlog"] = len(log)
                 probe["cnt"] = t.auth_handler.auth_fail_count
                 return (MSG_USERAUTH_REQUEST, A.userauth_request("u", "ssh-connection", "password"), 5)
-            srv = L.make_server_interface(log, allow_none=(r == AUTH_SUCCESSFUL), password=r, publickey=r)
+            srv = L.make_server_interface(log, allow_none=(r == AUTH_SUCCESSFUL), password=r, publickey=r, interactive_response=r)
             if r != AUTH_SUCCESSFUL:
                 srv.check_auth_none = lambda u: (log.append(("check_auth_none", u)), r)[1]
             script = L.Script(L.handshake_prefix(True) + [(MSG_SERVICE_REQUEST, A.service_request(), 3), first, after])
@@ -140,7 +150,7 @@ def cap_case():
     return Case("failed-attempt-cap", fn,
                 ["every-failure-is-counted", "tenth-failure=>disconnect-and-no-further-credentials-evaluated",
                  "below-the-cap-the-session-continues", "non-failure-result"],
-                {"failed attempts so far": "0..2^31", "methods": ["none", "password", "publickey", "bogus-method"]})
+                {"failed attempts so far": "0..2^31", "methods": ["none", "password", "publickey", "bogus-method", "keyboard-interactive answers"]})
 
 
 def cases(tier):
